@@ -56,6 +56,18 @@ def positions_ci(obj):
             yield "variant[%s].%s" % (uid, f), "variant." + f, _set(tgt, f), None
         yield "variant[%s].arches" % uid, "variant.arches", (lambda o, v, t=tgt: setattr(t(o), "arches", set(v))), None
         yield "variant[%s].uid" % uid, None, _set(tgt, "uid"), ["Other-%s" % uid.split("-")[-1]]
+
+        def rename(o, val, u=uid):
+            """id, UID and container key renamed together: only the id rule itself can refuse the object"""
+            v = o[u]
+            cont = v.parent if v.parent is not None else o.variants
+            key = [k for k, x in cont.variants.items() if x is v][0]
+            v.id = val
+            v.uid = val if v.parent is None else "%s-%s" % (v.parent.uid, val)
+            del cont.variants[key]
+            cont.variants[val if isinstance(val, str) else key] = v
+        if not obj[uid].variants and (not is_child or "-" not in uid.split("-", 1)[1]):
+            yield "variant[%s].id+uid" % uid, "variant.id", rename, [x for x in VT.corrupt_values("variant.id") if isinstance(x, str) and x and "-" not in x]
         if is_child:
             yield ("variant[%s].arches+foreign" % uid, None,
                    (lambda o, v, t=tgt: setattr(t(o), "arches", set(t(o).arches) | {v})), ["ppc64"])
@@ -138,6 +150,19 @@ def positions_di(obj):
         yield f, "di." + f, _set(lambda o: o, f), None
 
 
+def _ti_with_empty_tables():
+    """image tables that exist but hold nothing (pre-created for every platform), before and after the filled ones"""
+    ti = TI.build(TI.seed_nested())
+    filled = list(ti.images.images.items())
+    ti.images.images.clear()
+    ti.images.images["aa-empty"] = {}
+    for k, v in filled:
+        ti.images.images[k] = v
+    ti.images.images["zz-empty"] = {}
+    ti.tree.platforms |= {"aa-empty", "zz-empty"}
+    return ti
+
+
 def _ti_dumps(o):
     return TI.dumps(o)
 
@@ -154,11 +179,12 @@ BASES = {
     "extra_files": (MISC.extra_files, positions_compose_only, None),
     "treeinfo:flat": (lambda: TI.build(TI.seed_flat()), positions_ti, _ti_dumps),
     "treeinfo:nested": (lambda: TI.build(TI.seed_nested()), positions_ti, _ti_dumps),
+    "treeinfo:empty-tables": (_ti_with_empty_tables, positions_ti, _ti_dumps),
     "treeinfo:layered": (lambda: TI.build(TI.seed_layered()), positions_ti, _ti_dumps),
     "discinfo": (MISC.discinfo, positions_di, None),
 }
 QUICK_BASES = ["composeinfo:forest", "composeinfo:layered", "images:grid", "images:v11", "rpms", "modules", "extra_files",
-               "treeinfo:nested", "treeinfo:layered", "discinfo"]
+               "treeinfo:nested", "treeinfo:empty-tables", "treeinfo:layered", "discinfo"]
 
 
 def eval_corruption(base, label, vi):
@@ -311,6 +337,8 @@ def run_unit(unit, acc):
                 continue
             if fmt == "im" and e is not None and e[0] == "img" and isinstance(e[3], float):
                 continue                    # the universe also holds plausible OUT-of-domain values (float mtime/size)
+            if fmt == "ti" and e is not None and e[0] == "media" and e[1] and (e[1]["discnum"] is None) != (e[1]["totaldiscs"] is None):
+                continue                    # ... and half-set media numbering (the section holds both numbers or does not exist)
             o = eval_valid(fmt, name, edits)
             acc.ev()
             if o["result"] != "written":
